@@ -2,6 +2,7 @@
 from __future__ import annotations
 
 from props.resolve_common import *  # noqa: F401,F403
+from props.builder_route import check_builder_routes, check_builder_calls
 
 RULE = ("generated semantic models (every value known) written in k random spellings each (fields omitted / explicit / hoisted "
         "into top-level or deme-level defaults, ints vs floats, dict key order), optionally with equal sub-objects shared by "
@@ -62,6 +63,7 @@ def run(ctx):
                 d = G.spell(m, ctx.rng, level=level)
                 docs.append(d); meta.append((m, exp, level))
         reps = model_resolve(ctx, docs)
+        check_builder_routes(ctx, docs)          # Builder route: real Builder.data / resolve vs Model, per document
         graphs = []
         for d, (m, exp, level), rep in zip(docs, meta, reps):
             omitted = level > 0
@@ -94,6 +96,8 @@ def run(ctx):
                     ctx.violation(f"{name}: document with sub-objects shared by reference resolves differently",
                                   {"document": show(canon_doc(d)), "sharing": name},
                                   detail={"got": r if isinstance(r, tuple) else show(r), "expected": show(exp)})
+    # Builder route: random call sequences (None / "Infinity" / wrong types / repeated resolve / fromdict starts)
+    check_builder_calls(ctx, 200 if ctx.tier == "quick" else 2000)
 
 
 def replay(ctx, payload):
